@@ -5,6 +5,7 @@ import (
 	"io"
 	"sort"
 	"strings"
+	"unicode/utf8"
 
 	"github.com/vektah/gqlparser/v2/ast"
 )
@@ -132,6 +133,12 @@ func (f *formatter) WriteDescription(s string) *formatter {
 		return f
 	}
 
+	if !printableAsBlockString(s) {
+		// a block string would not give this text back: write an ordinary string
+		f.WriteString((&ast.Value{Kind: ast.StringValue, Raw: s}).String()).WriteNewline()
+		return f
+	}
+
 	f.WriteString(`"""`)
 	ss := strings.Split(s, "\n")
 	f.WriteNewline()
@@ -142,6 +149,39 @@ func (f *formatter) WriteDescription(s string) *formatter {
 	f.WriteString(`"""`).WriteNewline()
 
 	return f
+}
+
+// printableAsBlockString reports whether s, written line by line between triple
+// quotes, is read back unchanged: the block string value drops leading and
+// trailing blank lines and the indentation common to all lines, normalises line
+// terminators, and cannot hold a triple quote or a control character.
+func printableAsBlockString(s string) bool {
+	if strings.Contains(s, `"""`) || !utf8.ValidString(s) {
+		return false
+	}
+	unindented := false
+	lineStart, blank := 0, true
+	for i := 0; i <= len(s); i++ {
+		if i == len(s) || s[i] == '\n' {
+			if blank && (lineStart == 0 || i == len(s)) {
+				// a leading or trailing blank line
+				return false
+			}
+			lineStart, blank = i+1, true
+			continue
+		}
+		c := s[i]
+		if c < 0x20 && c != '\t' {
+			return false
+		}
+		if c != ' ' && c != '\t' {
+			if i == lineStart {
+				unindented = true
+			}
+			blank = false
+		}
+	}
+	return unindented
 }
 
 func (f *formatter) IncrementIndent() {
